@@ -343,6 +343,18 @@ def bld_families():
         S(n, [Field([(0, n)], 'n')], None, "WIDTH")
         S(n, [Field([(0, n - 1)], 'u')], None, "WIDTH")
         S(n, [Field([(1, n - 1)], 'u'), Field([(0, 1)], 'b')], None, "WIDTH")
+    # the type-state mask on every storage class: fields in the low, middle and top part of the base
+    for n in (12, 16, 24, 32, 40, 64, 65, 72, 96, 100, 127, 128):
+        top = n - 3
+        mid = n // 2
+        for dflt in (None, 0):
+            fs = [Field([(0, 3)], 'u'), Field([(mid, 2)], 'u'), Field([(top, 3)], 'u')]
+            if dflt is None:
+                # complete cover without a default: fill the gaps with two more fields
+                fs = [Field([(0, 3)], 'u'), Field([(3, mid - 3)], 'u' if (mid - 3) not in NATIVE else 'n'), Field([(mid, 2)], 'u'),
+                      Field([(mid + 2, top - mid - 2)], 'u' if (top - mid - 2) not in NATIVE else 'n'), Field([(top, 3)], 'u')]
+            S(n, fs, dflt, "WIDEMASK")
+            S(n, list(reversed([Field(f.ranges, f.kind) for f in fs])), dflt, "WIDEMASK")
     return out
 
 
